@@ -256,14 +256,21 @@ func (r *c09Run) faultyHeight(cell c09Cell, reqs *world.Requests) bool {
 		return false
 	}
 	if cell.Phase == "finalize" {
+		mustFail := cell.Kind == "error" || cell.Kind == "drop" || cell.Kind == "INVALID"
+		// two times out of three a fatal fault meets a block that does not move the execution head (its block message is absent):
+		// the engine is told the unchanged head all the same, and its failure stops the block all the same
+		ftxs, headStays := txs, ""
+		if mustFail && h%3 != 0 && len(txs) > 0 {
+			ftxs, headStays = txs[1:], " (block without a block message)"
+			c.Count("end_block_faults_on_blocks_without_a_block_message", 1)
+		}
 		n.EL.AddFault(mk())
-		blk, ferr := ch.FinalizeAndCommit(0, h, t, txs, lc, world.StepOpts{Reqs: reqs})
+		blk, ferr := ch.FinalizeAndCommit(0, h, t, ftxs, lc, world.StepOpts{Reqs: reqs})
 		n.EL.ClearFaults()
 		var cr *world.ErrCrash
-		mustFail := cell.Kind == "error" || cell.Kind == "drop" || cell.Kind == "INVALID"
 		switch {
 		case ferr == nil && mustFail:
-			r.viol("the block was committed although the engine failed at the end of the block: "+cell.Site+"/"+cell.Kind, "")
+			r.viol("the block was committed although the engine failed at the end of the block: "+cell.Site+"/"+cell.Kind+headStays, "")
 			if _, err := tw.Apply(blk, blk.Req.Txs); err != nil {
 				c.Inconclusive("twin: %v", err)
 				return false
